@@ -8,9 +8,9 @@ META = {
     "C01": dict(engine="vx-inproc", technique="exhaustive enumeration of API build scripts (all option insertion orders) against a list model + reference encoder/decoder",
                 text="Bounded exhaustive enumeration of PDU build scripts on the real coap_pdu API for UDP/TCP/WS framing; every script's bytes are compared byte-for-byte with an independent RFC 7252/8323/8974 encoder, re-parsed by libcoap and compared with a list model; refusals must be explained by the reference and leave the message unchanged.",
                 note="Bound: option sequences <=3 (quick) / <=4 (thorough) over a boundary alphabet of (number,length) pairs, token and payload length classes, max_size classes; trusted: the reference codec in ref/refmsg.c (self-tested)."),
-    "C02": dict(engine="vx-inproc+netsim", technique="exhaustive enumeration of short byte strings and of all single-field mutations of valid messages in a catalogue of endpoint states, ASan/UBSan + canary oracle",
+    "C02": dict(engine="vx-inproc+netsim", technique="exhaustive enumeration of short byte strings, of all single-field mutations of valid messages in a catalogue of endpoint states, of block-number sequences and of frame sequences x stream segmentations, ASan/UBSan + canary oracle",
                 text="Every byte string up to a length bound over full/boundary alphabets through the real parser and debug printer, and every single-field mutation of the catalogue's valid messages delivered to real endpoints in reached protocol states (block transfers, observe, TCP/WS sessions), under ASan/UBSan with live asserts; afterwards a canary request must be answered correctly and malformed input must not reach handlers.",
-                note="Not all byte strings: bounded lengths/alphabets and single mutations per state (see DESIGN 4); trusted: sanitizers, the harness's classification of malformed input (ref decoder)."),
+                note="Not all byte strings: bounded lengths/alphabets, single mutations per state, block-number sequences <=5/6 over 0..11, 2-3 frames x <=2 cuts (see DESIGN 4, 7.4); trusted: sanitizers, the harness's classification of malformed input (ref decoder)."),
     "C03": dict(engine="vx-inproc", technique="exhaustive differential enumeration of byte strings and single-field mutations against an independent reference decoder",
                 text="Exhaustive differential check of coap_pdu_parse (and the stream size/header functions) against an independent RFC 7252/8323/8974 decoder: all byte strings <=3 after 21+ header variants, boundary-alphabet strings up to 5/6 bytes, and every single-field mutation of a corpus of valid encodings; accept/reject must agree in both directions and accepted messages must decode identically.",
                 note="Bound: lengths/alphabets as stated in evidence; trusted: ref/refcodec.c (self-tested against hand-encoded vectors)."),
@@ -19,10 +19,10 @@ META = {
                 note="Bound: depth and <=5-option cap, edit alphabet chosen to cross every delta/length encoding threshold; trusted: ref/refmsg.c."),
     "C05": dict(engine="vx-inproc+netsim", technique="exhaustive cut-placement enumeration plus explicit-state search over stream-reader states (all 2^(N-1) segmentations)",
                 text="A real libcoap TCP/WebSocket server session is fed fixed valid byte streams (CSM/HTTP upgrade + messages covering all length/token/frame forms, a buffer-filling read, an oversize length, an over-long handshake line) under every placement of <=2/3 read boundaries, byte-wise, and - by BFS over the reader's state with state merging - all 2^(N-1) segmentations; the messages reaching the handler must equal what was composed and the bytes written back must not depend on the segmentation.",
-                note="Server direction only; fixed streams (6) rather than all message sequences; state merging relies on the dumped reader fields (listed in the harness); recv() on harness-owned descriptors is served by the harness, coap_socket_read/write stay real."),
+                note="Server direction only; fixed streams (9) rather than all message sequences; the search over all segmentations runs on the short streams in quick and on all streams in thorough, a search that meets its deadline is reported in cap_hit; state merging relies on the dumped reader fields (listed in the harness); recv() on harness-owned descriptors is served by the harness, coap_socket_read/write stay real."),
     "C06": dict(engine="vx-netsim", technique="deviation-bounded exhaustive schedule exploration (stateless DFS over delivery/loss/duplication/timer choices) of the real client with a trace monitor",
                 text="Real libcoap client context against raw peers on a simulated network with a virtual clock: the full configuration product (ACK_TIMEOUT x ACK_RANDOM_FACTOR x MAX_RETRANSMIT x random byte x peer silence x ACK/RST), all 2^10 drop subsets of the first 10 datagrams, and all schedules with <=2/3 deviations for multi-message scripts sharing one send queue; a monitor written from RFC 7252 4.2/4.8 predicts for every coap_io_prepare_io() call which messages must be retransmitted or given up and checks byte identity, single outcome and the reported wait time.",
-                note="Bound: <=3 messages on <=2 sessions, deviation bound 2 (quick) / 3 (thorough); delivery latency 0; no ping_timeout; a nack callback with sent==NULL is not counted as a message outcome."),
+                note="Also Confirmable notifications created inside coap_io_prepare_io and two sessions with equal message ids; netsim checks every returned wait time against the send queue. Bound: <=3 messages on <=2 sessions, deviation bound 2 (quick) / 3 (thorough); delivery latency 0; no ping_timeout; a nack callback with sent==NULL is not counted as a message outcome."),
     "C07": dict(engine="vx-netsim", technique="deviation-bounded exhaustive schedule exploration of real client + real server (piggybacked / separate / async) with callback and wire monitors",
                 text="Real libcoap client against a real libcoap server (piggybacked, async-trigger and async-delay separate responses) and raw peers (empty ACK + separate NON/CON in either order): sequences of 1-3 requests, all schedules with <=2..4 drop/duplicate/reorder deviations and all 2^10 drop subsets for the piggybacked style, timers only when the network is empty; monitors check exactly-one conclusion per CON request, no retransmission after a response, ACK/RST of every CON response incl. duplicates, FAIL => RST, NON once per datagram.",
                 note="One exchange outstanding per session; servers answer before client timers; raw peers idempotent and token-echoing; two genuine upstream limitations are listed in known_findings.json."),
@@ -38,13 +38,13 @@ META = {
     "C11": dict(engine="vx-netsim", technique="exhaustive enumeration of observe operation sequences x deviation-bounded schedules with a per-observer reference automaton",
                 text="All register/change/cancel/re-register/RST/delete/close operation sequences up to depth 4/6 by 1-2 clients and a raw observer on 2 resources, each under all schedules with <=1/2 deviations; a per-observer automaton checks tokens, strictly increasing Observe values (RFC 7641 serial order), a CON at least every sixth notification, eventual notification of the last state, silence after deregistration, single entry on re-registration, session kept alive.",
                 note="Bounds per evidence."),
-    "C12": dict(engine="vx-netsim", technique="exhaustive enumeration of session-lifecycle operation sequences with teardown at every point, ASan/LSan and allocator counters as oracle",
+    "C12": dict(engine="vx-netsim", technique="exhaustive enumeration of session-lifecycle operation sequences (UDP and raw TCP peers, observations, async, references, disconnects, time jumps) with teardown after every prefix against a reference model of events and reference holders, ASan/LSan and allocator counters",
                 text="All sequences up to depth 5/7 of requests from distinct/identical peers, observe, async, application reference/release, time jumps across the session timeout and context teardown; session identity per peer tuple, one NEW/DEL event pair per server session, no reclamation while referenced, idle reclamation and eviction, and a leak/double-free/use-after-free-clean teardown (ASan, LSan, per-tag allocation counters).",
-                note="Bounds per evidence; peers <= 4."),
-    "C13": dict(engine="vxsched", technique="preemption-bounded exhaustive exploration of thread interleavings under a cooperative scheduler over the real lock operations, plus separate free-running TSan pass",
+                note="Bounds per evidence (old alphabet depth 5/6, enlarged alphabet with TCP peer / several observations / disconnect depth 4/5); peers <= 4 + one TCP peer."),
+    "C13": dict(engine="vx-sched", technique="preemption-bounded exhaustive exploration of thread interleavings under a cooperative scheduler over the real lock operations, scheduling points inside every application callback",
                 text="Real pthreads serialised by a futex hand-off scheduler with scheduling points at every global-lock operation and I/O wait; all schedules with <=2/3 preemptions of 2-3 API threads plus an I/O thread, callbacks re-entering the API; invariants: lock ownership on entry to every *_lkd function (via -finstrument-functions), no deadlock/livelock, lock free at the end; the library is compiled with the configuration the repository's own build system emits.",
-                note="Sequential consistency assumed; data races are looked for by a separate sampled TSan run (auxiliary)."),
-    "C14": dict(engine="vx-inproc", technique="exhaustive product enumeration, differential against an independent RFC 8613 implementation, exhaustive single-bit tampering",
+                note="Sequential consistency assumed; scheduling points at lock operations, inside callbacks, I/O waits and a sleep operation; unsynchronised accesses inside correctly locked code are not looked for (the TSan pass of the design was not built); all callback kinds incl. ping/pong/cache/release/persistence call-outs re-enter the API."),
+    "C14": dict(engine="vx-inproc", technique="exhaustive product enumeration and exhaustive enumeration of exchange sequences (Observe register/cancel on two tokens) differential against an independent RFC 8613 implementation, exhaustive single-bit tampering",
                 text="Full product of message shapes x security contexts x partial IVs: libcoap's protected output must equal an independent RFC 8613 implementation (OpenSSL AES-CCM/HKDF, validated on the Appendix C vectors) byte for byte and unprotect to the original; every single-bit flip and truncation of the protected part and every one-parameter context change must be rejected.",
                 note="Trusted: OpenSSL primitives, ref/refoscore.c validated by RFC 8613 Appendix C vectors."),
     "C15": dict(engine="vx-inproc", technique="explicit-state BFS over delivery histories on a real recipient context against a set-based replay-window reference; exhaustive crash-point enumeration on the sender",
@@ -53,18 +53,18 @@ META = {
     "C16": dict(engine="vx-inproc", technique="exhaustive string enumeration over boundary alphabets with exact-size heap inputs (ASan) against an RFC 3986/7252 reference; exhaustive injectivity check",
                 text="All URI/path/query strings up to length 5-7 over boundary alphabets, all output buffer sizes, and all short segment lists over the full byte range through the public URI functions; results must equal an independent RFC 3986 / RFC 7252 6.4-6.5 reference, reconstruction must be injective and round-trip, and no byte outside the length-delimited input is read.",
                 note="Bounds per evidence; trusted: ref/refuri.c."),
-    "C17": dict(engine="vx", technique="exhaustive crash-point enumeration (kill before every stdio/rename call of every history) with restart in a fresh process",
+    "C17": dict(engine="vx", technique="exhaustive crash-point enumeration (kill before every stdio/rename call of every history, histories continuing across graceful and kill restarts) with restart in a fresh process",
                 text="All histories up to depth 4/6 of dynamic-resource and observe operations with persistence enabled; the process is killed before every tracked stdio/rename call; each file must be the complete pre- or post-update content, and a fresh process must restore every resource and observation and continue Observe numbering above anything sent before.",
                 note="Process-death crash model (SIGKILL semantics), real stdio on tmpfs."),
-    "C18": dict(engine="vx-netsim", technique="exhaustive single allocation-failure injection (every index k of every catalogue scenario) with ASan/LSan and canary oracle",
+    "C18": dict(engine="vx-netsim", technique="exhaustive allocation-failure injection (every index k, and every pair for most scenarios, of every catalogue scenario) with ASan/LSan and canary oracle",
                 text="For every scenario of a fixed catalogue and every index k of an allocation made through coap_malloc_type/coap_realloc_type, exactly the k-th allocation fails; no crash, no invalid access, no leak (LSan + per-tag counters), ownership rules hold, and a follow-up canary exchange with memory available succeeds.",
                 note="Only allocations through libcoap's funnel; GnuTLS/uthash raw malloc outside."),
     "C19": dict(engine="vx-netsim", technique="deviation-bounded exhaustive schedule exploration of real DTLS (GnuTLS) client and server over the simulated network, credential product",
                 text="Real GnuTLS-backed DTLS client and server contexts over the simulated network with a virtual clock: product of client identity/key x server key table configurations, loss/duplication/reorder of handshake and record datagrams within a deviation bound, injected cleartext CoAP; handlers run only after a handshake with matching credentials, nothing queued leaves in clear, each queued CON gets exactly one NACK on failure, queued messages are delivered in order exactly once on success.",
-                note="PSK only, GnuTLS only, DTLS only (TLS over streams not covered)."),
-    "C20": dict(engine="vx-inproc", technique="exhaustive enumeration of resource tables x filters x all (offset, buffer length) windows against an RFC 6690 reference",
+                note="PSK only, GnuTLS only, DTLS only (TLS over streams not covered); includes a server choosing the key by SNI with a filled SNI cache."),
+    "C20": dict(engine="vx-inproc", technique="exhaustive enumeration of resource tables x filters x all (offset, buffer length) windows against an RFC 6690 reference; exhaustive block-wise GET over the simulated network for tables x filters x Block2 sizes, differential against the in-process listing",
                 text="All subsets (<=3/4) of a catalogue of resource shapes x 15 filters x every (offset, buflen) window up to the listing length + 2 through coap_print_wellknown / coap_print_link; the full listing must equal the reference RFC 6690 listing as a set of links, every window must be exactly that slice with exact total length and truncation flag, nothing written outside the buffer.",
-                note="Trusted: ref/reflink.c; block-wise GET part via netsim where built."),
+                note="Trusted: ref/reflink.c; the block-wise GET clause is stage c20get (COAP_BLOCK_USE_LIBCOAP servers only: without it libcoap does no block-wise transfer)."),
 }
 
 REASON_NOT_BUILT = "check not built yet in this session (work in progress; see DESIGN.md 3 for the planned exhaustive core)"
@@ -114,7 +114,7 @@ def main():
              "kind_free_text": "stateless deviation-bounded exhaustive explorer over forked executions of the real library on a simulated network with a virtual clock"},
             {"name": "vx-inproc", "path": "vx/vx.c (vxp)", "serves_properties": ["C01", "C02", "C03", "C04", "C05", "C10", "C14", "C15", "C16", "C20"],
              "kind_free_text": "exhaustive sliced in-process enumeration / explicit-state BFS over the real library against reference oracles"},
-            {"name": "vxsched", "path": "vx/vxsched.c", "serves_properties": ["C13"], "kind_free_text": "preemption-bounded cooperative scheduler over real pthreads"},
+            {"name": "vx-sched", "path": "vx/vx.c + harness/c13_threads.c (scheduler over interposed pthread_mutex_* and -finstrument-functions)", "serves_properties": ["C13"], "kind_free_text": "preemption-bounded cooperative scheduler over real pthreads"},
         ],
         "checks": checks,
         "notes": "All checks are bounded exhaustive explorations of the real libcoap code built from /repo's working tree; see DESIGN.md. known_findings.json lists genuine defects (known / fixed).",
